@@ -41,7 +41,9 @@ def _mi_frame(B):
         g.length = groups[kw.get("level")]
         return g
     o.opaque_methods = {"groupby": groupby}
-    o.attrs = {"shape": SList([ops.simp(Z(n) * Z(t)), c], "tuple"), "values": vals}
+    idx = Opaque("multiindex")
+    idx.attrs = {"nlevels": B.int("nlevels", 1)}
+    o.attrs = {"shape": SList([ops.simp(Z(n) * Z(t)), c], "tuple"), "values": vals, "index": idx}
     o.ghost = (n, t, c, vals)
     return o
 
@@ -56,6 +58,7 @@ def _mi_post(A, r):
 
 contract(f"{DP}::from_multi_index_to_3d_numpy", "C15", cases=["-"],
          inputs=lambda B, case: {"X": _mi_frame(B), "instance_index": "inst", "time_index": "time"},
+         raises=[("ValueError", lambda A: Z(A.X.attrs["index"].attrs["nlevels"]) != 2)],
          ensures=[("instance-major-rows-become-(instance,column,time)", _mi_post)],
          notes=["the frame is abstract: len(X.groupby(level=...)) are the numbers of instances / time points, X.values is row-major "
                 "(instance-major, then time) -- pandas side assumed, checked by the bounded tier"])
